@@ -671,6 +671,36 @@ func (ec *EvalCtx) evalCall(x *ECall) Val {
 			}
 		}
 		ec.fail("visited() outside a map-range loop")
+	case "anymap": // view a value as map[string]interface{}
+		v := ec.coerce(ec.eval(x.Args[0]), SInt)
+		return Val{T: v.T, S: SInt, G: types.NewMap(types.Typ[types.String], types.NewInterfaceType(nil, nil))}
+	case "anyslice": // view the payload of an interface value as []interface{}
+		v := ec.eval(x.Args[0])
+		if v.S == SIface {
+			return Val{T: ex.D.unbox(SSlice, fmt.Sprintf("(ival %s)", v.T)), S: SSlice, G: types.NewSlice(types.NewInterfaceType(nil, nil))}
+		}
+		return Val{T: v.T, S: SSlice, G: types.NewSlice(types.NewInterfaceType(nil, nil))}
+	case "strslice": // give a Slice value the Go type []string
+		v := ec.eval(x.Args[0])
+		return Val{T: v.T, S: SSlice, G: types.NewSlice(types.Typ[types.String])}
+	case "asbool":
+		v := ec.eval(x.Args[0])
+		return Val{T: ex.D.unbox(SBool, fmt.Sprintf("(ival %s)", v.T)), S: SBool}
+	case "asstr":
+		v := ec.eval(x.Args[0])
+		return Val{T: ex.D.unbox(SStr, fmt.Sprintf("(ival %s)", v.T)), S: SStr}
+	case "boxstr": // the interface value holding a Go string
+		v := ec.coerce(ec.eval(x.Args[0]), SStr)
+		return Val{T: fmt.Sprintf("(mkI %d %s)", ex.D.tagOf(types.Typ[types.String]), ex.D.box(SStr, v.T)), S: SIface}
+	case "isstr":
+		v := ec.eval(x.Args[0])
+		return Val{T: fmt.Sprintf("(= (itag %s) %d)", v.T, ex.D.tagOf(types.Typ[types.String])), S: SBool}
+	case "ismap_any":
+		v := ec.eval(x.Args[0])
+		return Val{T: fmt.Sprintf("(= (itag %s) %d)", v.T, ex.D.tagOf(types.NewMap(types.Typ[types.String], types.NewInterfaceType(nil, nil)))), S: SBool}
+	case "isslice_any":
+		v := ec.eval(x.Args[0])
+		return Val{T: fmt.Sprintf("(= (itag %s) %d)", v.T, ex.D.tagOf(types.NewSlice(types.NewInterfaceType(nil, nil)))), S: SBool}
 	case "oldmem_unchanged": // every pre-existing Go memory location holds its entry value
 		return Val{T: ec.memFrame(ec.old, ec.mem), S: SBool}
 	case "mapkeys": // key set of a Go map
@@ -730,8 +760,31 @@ func (ec *EvalCtx) evalCall(x *ECall) Val {
 		}
 		return v
 	}
+	if ct := ex.S.Aliases[x.Fn]; ct != nil && ct.Pure {
+		// pure library function: same uninterpreted function the engine uses at call sites
+		var as, ss []string
+		for _, a := range x.Args {
+			v := ec.eval(a)
+			as = append(as, v.T)
+			ss = append(ss, string(v.S))
+		}
+		rs := ex.pureResultSort(ct)
+		fname := fmt.Sprintf("pf_%s_0", sanitize(shortName(ct.Key)))
+		ex.declFun(fname, "("+strings.Join(ss, " ")+") "+string(rs))
+		return Val{T: "(" + fname + " " + strings.Join(as, " ") + ")", S: rs}
+	}
 	ec.fail("unknown function %q", x.Fn)
 	return Val{}
+}
+
+// pureResultSort finds the first result sort of a pure library function by its key.
+func (ex *Exec) pureResultSort(ct *Contract) Sort {
+	for name, fn := range ssaFuncIndex(ex.P) {
+		if name == ct.Key {
+			return ex.D.sortOf(fn.Signature.Results().At(0).Type())
+		}
+	}
+	panic(evalErr("pure function " + ct.Key + " not found in the program"))
 }
 
 func (ex *Exec) declUFun(uf *UFunDecl) {
